@@ -27,6 +27,13 @@ def spec(th, seed):
             units.append(unit(isa, 'aligned_highp', extra=['-DGLM_FORCE_QUAT_DATA_WXYZ'], scale=0.25, tag='.wxyz'))
         units.append(unit('avx2', 'defaultp', extra=['-DGLM_FORCE_DEFAULT_ALIGNED_GENTYPES'], scale=0.25, tag='.default-aligned'))
         units.append(unit('sse2', 'aligned_highp', fs='plainO0', scale=0.1))
+    # constant-argument supplement (mon/constarg.cpp): scalar arguments as compile-time constants vs the same values read from volatiles; results must be bitwise identical
+    units.append(U('C03_constarg.simd-aligned', 'mon/constarg.cpp', 'plain', defs=['-DCONST_PROP=11'] + ['-DGLM_FORCE_INTRINSICS', '-DGLM_FORCE_DEFAULT_ALIGNED_GENTYPES', '-mavx2', '-mfma']))
+    units.append(U('C03_constarg.simd-aligned.sse2', 'mon/constarg.cpp', 'plain', defs=['-DCONST_PROP=11', '-DGLM_FORCE_INTRINSICS', '-DGLM_FORCE_DEFAULT_ALIGNED_GENTYPES', '-msse2']))
+    if th:
+        units.append(U('C03_constarg.simd-aligned.clang', 'mon/constarg.cpp', 'clang', defs=['-DCONST_PROP=11'] + ['-DGLM_FORCE_INTRINSICS', '-DGLM_FORCE_DEFAULT_ALIGNED_GENTYPES', '-mavx2', '-mfma']))
+        units.append(U('C03_constarg.simd-aligned.O3', 'mon/constarg.cpp', 'plainO3', defs=['-DCONST_PROP=11'] + ['-DGLM_FORCE_INTRINSICS', '-DGLM_FORCE_DEFAULT_ALIGNED_GENTYPES', '-mavx2', '-mfma']))
+        units.append(U('C03_constarg.simd-aligned.O1', 'mon/constarg.cpp', 'plainO1', defs=['-DCONST_PROP=11'] + ['-DGLM_FORCE_INTRINSICS', '-DGLM_FORCE_DEFAULT_ALIGNED_GENTYPES', '-mavx2', '-mfma']))
     return {
         'units': units,
         'parallel_units': 4,
